@@ -22,9 +22,11 @@ func runCreate(c map[string]any, ev map[string]any) error {
 	if by, _ := c["by"].(string); by != "req" {
 		return fmt.Errorf("create: only the requester is driven (by=%q)", by)
 	}
+	shape, _ := c["shape"].(string)
 	w, err := sim.NewWorld(sim.WorldOpts{Accounts: []sim.Acct{
 		{Login: "req", Name: reqAcctName, Password: "rp"},
 		{Login: "spare", Name: "Spare", Password: "sp"},
+		{Login: "guest", Name: "Guest", Password: ""},
 	}})
 	if err != nil {
 		return err
@@ -32,6 +34,36 @@ func runCreate(c map[string]any, ev map[string]any) error {
 	defer w.Close()
 	if err := setAccess(w, "req", acc); err != nil {
 		return err
+	}
+	// the accounts a handler might take defaults from hold everything
+	for _, l := range []string{"guest", "spare"} {
+		if err := setAccess(w, l, sim.AllAccess()); err != nil {
+			return err
+		}
+	}
+	// the access field(s) in the requested shape
+	var af []sim.F
+	ones := []byte{255, 255, 255, 255, 255, 255, 255, 255}
+	switch shape {
+	case "full", "":
+		af = []sim.F{sim.Fld(sim.FUserAccess, want[:])}
+	case "absent":
+	case "empty":
+		af = []sim.F{sim.Fld(sim.FUserAccess, []byte{})}
+	case "len1":
+		af = []sim.F{sim.Fld(sim.FUserAccess, want[:1])}
+	case "len4":
+		af = []sim.F{sim.Fld(sim.FUserAccess, want[:4])}
+	case "len7":
+		af = []sim.F{sim.Fld(sim.FUserAccess, want[:7])}
+	case "len9":
+		af = []sim.F{sim.Fld(sim.FUserAccess, append(append([]byte{}, want[:]...), 255))}
+	case "len16":
+		af = []sim.F{sim.Fld(sim.FUserAccess, append(append([]byte{}, want[:]...), ones...))}
+	case "dup":
+		af = []sim.F{sim.Fld(sim.FUserAccess, want[:]), sim.Fld(sim.FUserAccess, ones)}
+	default:
+		return fmt.Errorf("create: shape %q", shape)
 	}
 	req := w.Dial("")
 	if rep, err := req.Login(sim.LoginOpts{Login: "req", Password: "rp", Name: reqLoginName}); err != nil || rep.Err != 0 {
@@ -43,11 +75,12 @@ func runCreate(c map[string]any, ev map[string]any) error {
 	switch intOf(c["via"]) {
 	case 350:
 		typ = sim.TNewUser
-		fields = []sim.F{sim.Fld(sim.FUserLogin, sim.Obfuscate([]byte(login))), sim.Fld(sim.FUserName, []byte("Created")),
-			sim.Fld(sim.FUserPassword, []byte("pw")), sim.Fld(sim.FUserAccess, want[:])}
+		fields = append([]sim.F{sim.Fld(sim.FUserLogin, sim.Obfuscate([]byte(login))), sim.Fld(sim.FUserName, []byte("Created")),
+			sim.Fld(sim.FUserPassword, []byte("pw"))}, af...)
 	case 349:
 		typ = sim.TUpdateUser
-		fields = []sim.F{subCreate(login, want)}
+		fields = []sim.F{sim.Fld(sim.FData, encSub(append([]sim.F{sim.Fld(sim.FUserLogin, sim.Obfuscate([]byte(login))),
+			sim.Fld(sim.FUserName, []byte("Created")), sim.Fld(sim.FUserPassword, []byte("pw"))}, af...)...))}
 	default:
 		return fmt.Errorf("create: via %v", c["via"])
 	}
